@@ -4,7 +4,6 @@ import (
 	"context"
 	"errors"
 	"fmt"
-	"runtime"
 	"strings"
 	"sync"
 	"time"
@@ -42,26 +41,9 @@ type putRecorder struct {
 	foreign  []string
 	uses     int
 	yieldUse func(matcher int) // parks the calling goroutine before a use (nil: no yield)
-	// the proxy takes its matchers' buffers in the goroutine of the request; stores that shard on their
-	// own side take theirs (from their own pools) in server goroutines, which are none of C17's business
-	// and may hold locks of the in-process transport
-	requestGoroutine func() bool
-}
-
-// goid returns the runtime's id of the calling goroutine; used only to tell the request's goroutine from
-// server goroutines, never in an operation identity or a logged value.
-func goid() uint64 {
-	var buf [48]byte
-	n := runtime.Stack(buf[:], false)
-	var id uint64
-	for i := len("goroutine "); i < n; i++ {
-		c := buf[i]
-		if c < '0' || c > '9' {
-			break
-		}
-		id = id*10 + uint64(c-'0')
-	}
-	return id
+	// only matchers whose buffer comes from the proxy's pool are tracked: stores that shard on their own
+	// side use their own pools, in server goroutines that may hold locks of the in-process transport
+	proxyPool *sync.Pool
 }
 
 func (r *putRecorder) reset() {
@@ -72,35 +54,41 @@ func (r *putRecorder) reset() {
 
 func (r *putRecorder) event(site string, v any) {
 	switch site {
-	case "shard.get":
-		m, ok := v.(*storepb.ShardMatcher)
-		if !ok || m.VerifBuf() == nil || (r.requestGoroutine != nil && !r.requestGoroutine()) {
-			return
-		}
-		r.mu.Lock()
-		if r.owner == nil {
-			r.owner, r.idx = map[*[]byte]*storepb.ShardMatcher{}, map[*storepb.ShardMatcher]int{}
-		}
-		r.idx[m] = len(r.idx) + 1
-		if prev := r.owner[m.VerifBuf()]; prev != nil {
-			r.foreign = append(r.foreign, fmt.Sprintf("the pool handed the buffer of matcher #%d, which had not returned it, to matcher #%d", r.idx[prev], r.idx[m]))
-		}
-		r.owner[m.VerifBuf()] = m
-		r.mu.Unlock()
 	case "shard.use":
 		m, ok := v.(*storepb.ShardMatcher)
 		if !ok || m.VerifBuf() == nil {
 			return
 		}
 		r.mu.Lock()
-		y, i := r.yieldUse, r.idx[m]
+		if r.owner == nil {
+			r.owner, r.idx = map[*[]byte]*storepb.ShardMatcher{}, map[*storepb.ShardMatcher]int{}
+		}
+		i, known := r.idx[m]
+		if !known {
+			// first use: the matcher still holds its buffer, so it can tell which pool it came from
+			if r.proxyPool == nil || m.VerifPool() != r.proxyPool {
+				r.idx[m] = 0 // a store's own matcher
+				r.mu.Unlock()
+				return
+			}
+			i = len(r.idx) + 1
+			r.idx[m] = i
+			if prev := r.owner[m.VerifBuf()]; prev != nil && prev != m {
+				r.foreign = append(r.foreign, fmt.Sprintf("the pool handed the buffer of matcher #%d, which had not returned it, to matcher #%d", r.idx[prev], i))
+			}
+			r.owner[m.VerifBuf()] = m
+		}
+		y := r.yieldUse
 		r.mu.Unlock()
-		if y != nil && i > 0 {
+		if i == 0 {
+			return
+		}
+		if y != nil {
 			y(i)
 		}
 		r.mu.Lock()
 		r.uses++
-		if r.owner != nil && i > 0 && r.owner[m.VerifBuf()] != m {
+		if r.owner[m.VerifBuf()] != m {
 			now := "it is back in the pool"
 			if o := r.owner[m.VerifBuf()]; o != nil {
 				now = fmt.Sprintf("the pool has handed it to matcher #%d", r.idx[o])
@@ -115,10 +103,6 @@ func (r *putRecorder) event(site string, v any) {
 		}
 		r.mu.Lock()
 		if r.owner != nil {
-			if _, proxys := r.owner[b]; !proxys && r.requestGoroutine != nil {
-				r.mu.Unlock()
-				return // a store's own matcher
-			}
 			delete(r.owner, b)
 		}
 		r.puts[b]++
@@ -206,9 +190,8 @@ func runC17Shard(x *simkit.Exec) {
 			}
 		}
 		s.Go("client", func() {
-			me := goid()
 			rec.mu.Lock()
-			rec.requestGoroutine = func() bool { return goid() == me }
+			rec.proxyPool = cl.proxy.VerifShardPool()
 			rec.mu.Unlock()
 			for ri, r := range reqs {
 				for i, c := range cl.clients {
